@@ -147,6 +147,8 @@ def random_program(rng):
     ars = [len(a) for a in preds.values()] + [len(a) + 1 for a, _ in funcs.values()] + ([len(a) + 1 for _, a in enum[1]] if enum else [])
     if len(ars) > 4 or sum(ars) > 9:
         return None
+    if enum and (ntypes > 1 or sum(ars) > 8 or sum(1 for a in ars if a >= 3) > 1):
+        return None           # three element types plus an enum make the state space too large for the quick tier
     return "\n".join(lines) + "\n"
 
 
